@@ -159,6 +159,7 @@ func verifAtomicWrite(filename string, data []byte, perm os.FileMode) error {
 		return verifErrInjected
 	}
 	verifAuditObserveSave()
+	verifC14ObserveSave()
 	verifDisk = data
 	verifDiskWrites++
 	ghostLog("disk.write")
